@@ -7,6 +7,7 @@ from . import rules_units as U
 from . import rules_store as S
 from . import rules_clone as C
 from . import rules_equality as E
+from . import rules_build as B
 
 RULES = {
     "T1": T.rule_T1,
@@ -15,10 +16,14 @@ RULES = {
     "T5": E.rule_T5,
     "T6": T.rule_T6,
     "T8": C.rule_T8,
+    "T9": B.rule_T9,
+    "T10": B.rule_T10,
+    "A2": B.rule_A2,
     "A3": L.rule_A3,
     "D1": U.rule_D1,
     "D2": U.rule_D2,
     "D3": S.rule_D3,
+    "D4": B.rule_D4,
     "W1": S.rule_W1,
     "G4": S.rule_G4,
     "G1c": G.rule_G1c,
@@ -103,6 +108,29 @@ PROPS = {
         "kind (symbol table, register, value, frame, extra) is traced, remapped and written back, and only the compactor and the "
         "store primitives rewrite cells (W1). Structural identity after compaction is not decided.",
     },
+    "C04": {
+        "rules": ["T10", "A2"],
+        "claim": "Decides the attribution clause of C04, not the tree shape: every one of the 69 Definition handlers (except the reviewed "
+        "Group / ElseJump / Drop) records at least one instruction with Some(index of the node it handles), and on every path through "
+        "the builder each emitted instruction gets exactly one metadata record (so an attribution can be neither lost nor doubled). "
+        "That parse returns a proper binary tree covering every token is not decided.",
+    },
+    "C05": {
+        "rules": ["A2", "D4", "T1"],
+        "claim": "Decides three clauses of C05: exactly one metadata record per emitted instruction on every builder path (A2, path-sensitive "
+        "typestate); operands have the kind their instruction's reader expects and come from the data object's own tables - jump "
+        "operands and expression values from get_jump_table_len(), data operands from add_*/parse_add_*, list counts from the child "
+        "counter, jump-table entries from get_instruction_len() or a zero placeholder whose index is registered for patching, the "
+        "patch itself from get_instruction_len() (D4, interprocedural origin analysis); and every Definition has a handler (T1). "
+        "Block terminators and root-stack exhaustion depend on program shape and are not decided.",
+    },
+    "C20": {
+        "rules": ["D4", "W1"],
+        "claim": "Decides the index-provenance clause of C20: every index a build emits or reports (jump operands, expression values, the "
+        "entry index, jump-table entries) originates from the data object's current table lengths or from its own add_* results, never "
+        "from a literal or an absolute position (D4), and build mutates earlier state only through get_from_jump_table_mut on its own "
+        "placeholders (W1). That each program computes the same result as when built alone is not decided.",
+    },
     "C09": {
         "rules": ["N1", "N2", "N3"],
         "claim": "Decides the no-wrap/no-trap/finiteness clauses of C09 on the code of impl GarnishNumber for SimpleNumber and its helpers: "
@@ -129,6 +157,9 @@ TECHNIQUE = {
     "C16": "enumeration of locally constructed error values (resolved constructors) in the list lookup functions of both data impls against a reviewed table",
     "C11": "arm-table extraction of the (type,type) equality dispatch from resolved HIR: symmetry, role signatures of mirrored arms, accessor/type agreement, negation wiring",
     "C19": "per-variant arm tables of the two compaction passes: binding-to-sink flow of reference fields compared with a reference-field spec; root trace/remap/write-back agreement; who-may-write table",
+    "C04": "per-Definition handler attribution table from resolved HIR; path-partitioned typestate (instruction pending / balanced) over the builder's MIR",
+    "C05": "path-partitioned typestate over the builder's MIR; interprocedural origin (def-use) analysis of every instruction operand, jump-table entry and expression value through parameters, closures and struct fields",
+    "C20": "interprocedural origin analysis of every index the builder emits or reports; who-may-write table",
     "C09": "MIR scan of the number implementation: raw integer BinaryOp/overflow asserts, unchecked std integer calls, overflow-flag dataflow to a branch, FloatToInt casts, dominator check of finiteness tests over Float constructions",
     "C12": "constant/predicate wiring check on the four comparison functions; comparable type-pair arm table",
 }
